@@ -50,6 +50,16 @@ theorem act_deselect_all_is_model (s : Sel) (run cursor : Nat) :
   unfold interp deselectAll SelOps.act_deselect_all
   simp
 
+/-- the wiring of `EventHandler::handle`: each selection event does what the model's action of that name does -/
+theorem handle_arms_are_model (s : Sel) (run cursor : Nat) :
+    interp (SelOps.handleArm .toggle) s run cursor = toggle s run cursor ∧
+    interp (SelOps.handleArm .toggleAll) s run cursor = some (toggleAll s run) ∧
+    interp (SelOps.handleArm .selectAll) s run cursor = some (selectAll s run) ∧
+    interp (SelOps.handleArm .deselectAll) s run cursor = some (deselectAll s) := by
+  simp only [SelOps.handleArm]
+  exact ⟨act_toggle_is_model s run cursor, act_toggle_all_is_model s run cursor, act_select_all_is_model s run cursor,
+    act_deselect_all_is_model s run cursor⟩
+
 /-! ### `append_sorted_items` (watermark bookkeeping), `pre_select`, `act_select_raw_item`, `should_select` -/
 
 /-- the translated `should_select` on the model's selector (no `regex`: the harness and `sk` never set one) -/
